@@ -5,10 +5,27 @@ package seqx
 
 import (
 	"fmt"
+	"os"
+	"runtime"
 	"sync"
 
 	"verif/engine/ev"
 )
+
+func memLimitGB() int {
+	n := 24
+	if s := os.Getenv("VERIF_MEM_GB"); s != "" {
+		fmt.Sscan(s, &n)
+	}
+	return n
+}
+
+func heapOver() (bool, float64) {
+	var m runtime.MemStats
+	runtime.ReadMemStats(&m)
+	gb := float64(m.HeapAlloc) / (1 << 30)
+	return gb > float64(memLimitGB()), gb
+}
 
 type Failure struct {
 	Sig  string // known-findings key: identifies the failing call site / input class
@@ -68,6 +85,11 @@ func Explore[E any](r *ev.Run, sc Scenario[E]) Stats {
 	r.Distinct("distinct_outcomes", sc.Name+"|"+o)
 	stop := false
 	for depth := 1; depth <= sc.MaxDepth && len(frontier) > 0 && !stop; depth++ {
+		// memory guard: a search that outgrows the machine is cut (reported as capped), never killed by the kernel
+		if over, heapGB := heapOver(); over {
+			r.Cap(fmt.Sprintf("%s: heap %.0f GB before depth %d (limit %d GB, VERIF_MEM_GB)", sc.Name, heapGB, depth, memLimitGB()))
+			break
+		}
 		// generate children
 		var jobs []*job[E]
 		for _, h := range frontier {
@@ -103,6 +125,14 @@ func Explore[E any](r *ev.Run, sc Scenario[E]) Stats {
 			}()
 		}
 		for i, j := range jobs {
+			if i%4096 == 0 {
+				if over, heapGB := heapOver(); over {
+					r.Cap(fmt.Sprintf("%s: heap %.0f GB during depth %d (limit %d GB, VERIF_MEM_GB)", sc.Name, heapGB, depth, memLimitGB()))
+					emu.Lock()
+					expired = true
+					emu.Unlock()
+				}
+			}
 			if i%64 == 0 && r.Expired(fmt.Sprintf("%s depth %d", sc.Name, depth)) {
 				emu.Lock()
 				expired = true
